@@ -421,6 +421,88 @@ theorem C18_restart_witness : ¬ RestartStatement false := by
   revert h2
   decide
 
+/-! ### ownership / label edits between writing an expression and writing it again
+
+The world (`World`: the lexical path above the parent, the names of the channels) may be edited between the two
+writes: an ancestor is relabelled, the parent composite is adopted by / moved to another workflow, a sibling is
+relabelled, everything is pickled and loaded.  `L w e` is the label a labelling scheme gives to the expression
+`e` (channel OBJECTS, operator, operand objects) in world `w`. -/
+
+/-- **reuse is invariant under every edit that leaves the label (the key function) unchanged**: for ANY labelling
+scheme, any history of further writes and of edits that fix the label of `e`, `e` written again — in the world
+as it is then — is handed the node it was handed first, and nothing changes -/
+theorem C18_reuse_across_edits {α W : Type} (L : W → α → String) (par : Nat) (e : α)
+    (steps : List (Step α W)) (w : W) (st : St) (hf : Fixes L e w steps) :
+    let first := injectL (L w) st (some par) e
+    let after := runSteps L par w first.1 steps
+    injectL (L after.1) after.2 (some par) e = (after.2, first.2) := by
+  have h := runSteps_lookup L par e (injectL (L w) st (some par) e).2 steps w _
+    (injectL_lookup_self (L w) st par e) hf
+  exact injectL_found _ _ par e _ h
+
+/-- the statement for a class `ok` of edits: whatever happens in between (writes, edits of that class), the same
+expression written again in the same parent reuses its node -/
+def EditStatement {α W : Type} (ok : (W → W) → Prop) (L : W → α → String) : Prop :=
+  ∀ (par : Nat) (e : α) (steps : List (Step α W)) (w : W) (st : St), EditsIn ok steps →
+    injectL (L (runSteps L par w (injectL (L w) st (some par) e).1 steps).1)
+      (runSteps L par w (injectL (L w) st (some par) e).1 steps).2 (some par) e
+    = ((runSteps L par w (injectL (L w) st (some par) e).1 steps).2, (injectL (L w) st (some par) e).2)
+
+/-- edits that leave every channel's scoped label alone: relabelling the root or any other ancestor, re-parenting
+the parent composite (adoption by a workflow, move between workflows, orphaning), pickling + loading -/
+def KeepsNames (f : World → World) : Prop := ∀ w, (f w).name = w.name
+
+/-- the key of /repo is a function of (scoped label of the owner channel, class name, operand keys): it is fixed
+by every edit that fixes the scoped labels of the channels of the expression … -/
+theorem C18_scoped_key_fixed (H : Key → String) (w w' : World) (e : Expr0)
+    (h : ∀ i ∈ e.chans, w'.name i = w.name i) : labelScoped H w' e = labelScoped H w e := by
+  simp only [labelScoped, render_congr w w' e h]
+
+/-- … hence on /repo reuse survives every history of path edits (and relabels of channels the expression does not
+mention) -/
+theorem C18_path_edits_scoped (H : Key → String) : EditStatement KeepsNames (labelScoped H) := by
+  intro par e steps w st hed
+  exact C18_reuse_across_edits (labelScoped H) par e steps w st
+    (fixes_of_editsIn _ e KeepsNames (fun f hf w => C18_scoped_key_fixed H w (f w) e (fun i _ => by rw [hf w])) steps w hed)
+
+/-- a key on the channel objects themselves (finding the node by its wiring) survives EVERY edit -/
+theorem C18_all_edits_ident (H : Key → String) : EditStatement (fun _ => True) (labelIdent H) := by
+  intro par e steps w st hed
+  exact C18_reuse_across_edits (labelIdent H) par e steps w st
+    (fixes_of_editsIn _ e _ (fun _ _ _ => rfl) steps w hed)
+
+/-- `n * 2` on channel 0 (`n__user_input`) and `n + k` -/
+def wMul2 : Expr0 := ⟨0, "Multiply", [.raw "int" "2" "2"]⟩
+def wNK : Expr0 := ⟨0, "Add", [.chan 1]⟩
+def wWorld : World := ⟨"/draft", fun i => if i = 0 then "n__user_input" else "k__user_input"⟩
+/-- the root workflow is relabelled -/
+def relabelRoot : World → World := fun w => { w with path := "/final" }
+/-- the sibling `k` is relabelled to `c` (in the supported way, the parent's table follows) -/
+def relabelK : World → World := fun w => { w with name := fun i => if i = 1 then "c__user_input" else w.name i }
+
+/-- a toy hash that spells the key out -/
+def spellH : Key → String
+  | .flat s => s
+  | .struct a b ops => a ++ "|" ++ b ++ "|" ++ "|".intercalate (ops.map fun | .ch s => s | .obj t r => t ++ ":" ++ r)
+
+/-- a key on the FULL label is not fixed by a path edit, and the statement is FALSE for it: after relabelling the
+root workflow the same expression gets a second node -/
+theorem C18_path_edits_full_witness : KeepsNames relabelRoot ∧ ¬ EditStatement KeepsNames (labelFull spellH) := by
+  refine ⟨fun _ => rfl, fun h => ?_⟩
+  have := h 0 wMul2 [.edit relabelRoot] wWorld emptySt ⟨fun _ => rfl, trivial⟩
+  have h2 := congrArg (·.2) this
+  revert h2
+  decide
+
+/-- FALSE on /repo for edits that rename a channel of the expression (KF-C18-4): after the sibling `k` was
+relabelled, `n + k` written again gets a second node -/
+theorem C18_operand_relabel_witness : ¬ EditStatement (fun _ => True) (labelScoped spellH) := by
+  intro h
+  have := h 0 wNK [.edit relabelK] wWorld emptySt ⟨trivial, trivial⟩
+  have h2 := congrArg (·.2) this
+  revert h2
+  decide
+
 /-! ## Non-vacuity -/
 
 /-- a toy hash that separates the keys below -/
@@ -450,6 +532,14 @@ example : nodeFn exPy (dispatch .sub) (nodeArgs true 7 [2]) = some 5 ∧
     nodeFn exPy (dispatch .rmul) (nodeArgs true 7 [2]) = some 27 ∧
     nodeFn exPy (dispatch .mul) (nodeArgs true 7 [2]) = some 72 ∧
     nodeFn exPy (dispatch .neg) (nodeArgs true 7 []) = some (-7) := by decide
+/-- a history with a path edit, a write in between and a relabel of an unrelated channel: reuse on /repo's key -/
+example : EditsIn KeepsNames ([.edit relabelRoot, .write wNK, .edit relabelRoot] : List (Step Expr0 World)) :=
+  ⟨fun _ => rfl, fun _ => rfl, trivial⟩
+example :
+    let first := injectL (labelScoped spellH wWorld) emptySt (some 0) wMul2
+    let after := runSteps (labelScoped spellH) 0 wWorld first.1 [.edit relabelRoot, .write wNK, .edit relabelRoot]
+    (injectL (labelScoped spellH after.1) after.2 (some 0) wMul2).2 = first.2 ∧ (after.2.children 0).length = 2 := by
+  decide
 example : ClosedSlice (some 1) (some 4) (none : Option Nat) ∧ ¬ ClosedSlice (some 1) none (none : Option Nat) := by
   simp [ClosedSlice]
 /-- `x[c:]` inside a parent on the strict node: the expression raises and nothing is left behind -/
@@ -516,3 +606,9 @@ end PwVerif.C18
 #print axioms PwVerif.C18.C18_raising_injection_leaves_nothing
 #print axioms PwVerif.C18.C18_restart_stable
 #print axioms PwVerif.C18.C18_restart_witness
+#print axioms PwVerif.C18.C18_reuse_across_edits
+#print axioms PwVerif.C18.C18_scoped_key_fixed
+#print axioms PwVerif.C18.C18_path_edits_scoped
+#print axioms PwVerif.C18.C18_all_edits_ident
+#print axioms PwVerif.C18.C18_path_edits_full_witness
+#print axioms PwVerif.C18.C18_operand_relabel_witness
